@@ -220,6 +220,7 @@ pub fn build(seed: u64, tier: Tier) -> Corpus {
         s.options = opts.iter().map(|o| o.to_string()).collect();
         specs.push(s);
     }
+    specs.push(crate::arity::spec());
     {
         let mut s = Spec::new("subinput", "subinput", &subinput_grammar());
         s.forms = true;
